@@ -10,3 +10,7 @@ import RaftWal.Props.C05
 #print axioms RaftWal.C05.crash_spec_store_is_reference
 #print axioms RaftWal.C05.crash_spec_delHead_is_reference
 #print axioms RaftWal.C05.crash_spec_delTail_is_reference
+#print axioms RaftWal.C05.deleteRange_classification_from_source
+#print axioms RaftWal.C05.truncation_scans_from_source
+#print axioms RaftWal.C05.storeLogs_guards_from_source
+#print axioms RaftWal.C05.writers_wait_for_queued_rotation
